@@ -17,12 +17,12 @@ impl Outs {
     pub fn grouped(self) -> Value {
         let mut groups: Vec<(Value, Vec<String>)> = Vec::new();
         for (f, o) in self.0 {
-            // panic messages differ between forms; group panics by kind only
-            let key = if o["k"] == "panic" { json!({"k": "panic"}) } else { o.clone() };
-            if let Some(g) = groups.iter_mut().find(|g| g.0 == key) {
+            // panic messages differ between forms: group panics by kind, keep the first message
+            let is_panic = o["k"] == "panic";
+            if let Some(g) = groups.iter_mut().find(|g| if is_panic { g.0["k"] == "panic" } else { g.0 == o }) {
                 g.1.push(f);
             } else {
-                groups.push((key, vec![f]));
+                groups.push((o, vec![f]));
             }
         }
         Value::Array(groups.into_iter().map(|(o, fs)| json!({"forms": fs, "out": o})).collect())
